@@ -184,18 +184,16 @@ def trimZeros (b : Buf) : Nat → Nat → Nat
 
 /-! ## the three output formats -/
 
-/-- `FormatExponent(v, out, cnt)` -/
-def formatExponent (st : St) (v : Dec) (out cnt : Nat) : St × Nat :=
+/-- `FormatExponent`, middle block: `*out = *p; if (end - p > 1) *p = '.'; else end--;` (`p = out + 1`) -/
+def fxMant (st : St) (out e : Nat) : St × Nat :=
   let p := out + 1
-  let r := formatSignificand st v.sig p cnt
-  let st := r.1
-  let e := trimZeros st.buf 17 r.2
   let st := st.w out (st.buf p)
-  let r2 : St × Nat := if e - p > 1 then (st.w p 46, e) else (st, e - 1)
-  let st := r2.1; let e := r2.2
+  if e - p > 1 then (st.w p 46, e) else (st, e - 1)
+
+/-- `FormatExponent`, last block: `'e'`, the sign and the 1..3 exponent digits (`ex = v.exp + cnt - 1`) -/
+def fxExp (st : St) (e : Nat) (ex : Int) : St × Nat :=
   let st := st.w e 101
   let e := e + 1
-  let ex : Int := v.exp + (cnt : Int) - 1
   let st := if ex < 0 then st.w e 45 else st.w e 43
   let ex : Nat := if ex < 0 then (-ex).toNat else ex.toNat
   let e := e + 1
@@ -206,31 +204,40 @@ def formatExponent (st : St) (v : Dec) (out cnt : Nat) : St × Nat :=
   else if ex ≥ 10 then (st.c2 e (ex * 2), e + 2)
   else (st.w e ((48 + ex) % 256), e + 1)
 
+/-- `FormatExponent(v, out, cnt)` -/
+def formatExponent (st : St) (v : Dec) (out cnt : Nat) : St × Nat :=
+  let r := formatSignificand st v.sig (out + 1) cnt
+  let e := trimZeros r.1.buf 17 r.2
+  let r2 := fxMant r.1 out e
+  fxExp r2.1 r2.2 (v.exp + (cnt : Int) - 1)
+
+/-- `FormatDecimal`, first block: `if (point <= 0) { "0." and -point zeros }`; returns the new `p` -/
+def fdLead (st : St) (out : Nat) (point : Int) : St × Nat :=
+  if point ≤ 0 then
+    let nzeros := (-point).toNat
+    let st := st.w out 48
+    let st := st.w (out + 1) 46
+    (st.fill (out + 2) nzeros 48, out + 2 + nzeros)
+  else (st, out)
+
+/-- `FormatDecimal`, last block (`point > 0`): insert the point or add trailing zeros and `".0"` -/
+def fdPoint (st : St) (p e pt : Nat) : St × Nat :=
+  let digs := e - p
+  if digs > pt then
+    let st := st.move (p + pt + 1) (p + pt) (digs - pt)
+    (st.w (p + pt) 46, e + 1)
+  else
+    let nzeros := pt - digs
+    let st := st.fill e (nzeros + 2) 48
+    (st.w (e + nzeros) 46, e + nzeros + 2)
+
 /-- `FormatDecimal(v, out, cnt)` -/
 def formatDecimal (st : St) (v : Dec) (out cnt : Nat) : St × Nat :=
   let point : Int := (cnt : Int) + v.exp
-  let r0 : St × Nat :=
-    if point ≤ 0 then
-      let nzeros := (-point).toNat
-      let st := st.w out 48
-      let st := st.w (out + 1) 46
-      (st.fill (out + 2) nzeros 48, out + 2 + nzeros)
-    else (st, out)
-  let st := r0.1; let p := r0.2
-  let r := formatSignificand st v.sig p cnt
-  let st := r.1
-  let e := trimZeros st.buf 17 r.2
-  if point ≤ 0 then (st, e)
-  else
-    let pt := point.toNat
-    let digs := e - p
-    if digs > pt then
-      let st := st.move (p + pt + 1) (p + pt) (digs - pt)
-      (st.w (p + pt) 46, e + 1)
-    else
-      let nzeros := pt - digs
-      let st := st.fill e (nzeros + 2) 48
-      (st.w (e + nzeros) 46, e + nzeros + 2)
+  let r0 := fdLead st out point
+  let r := formatSignificand r0.1 v.sig r0.2 cnt
+  let e := trimZeros r.1.buf 17 r.2
+  if point ≤ 0 then (r.1, e) else fdPoint r.1 r0.2 e point.toNat
 
 /-- `p = U64toa(p, u)` on the state -/
 def stU64toa (st : St) (p u : Nat) : St × Nat :=
